@@ -13,6 +13,7 @@ import (
 	"io"
 	"math/bits"
 	"os"
+	"sync"
 	"time"
 )
 
@@ -392,5 +393,45 @@ func VerifC13_WriteFault() {
 	}
 	if cut < total {
 		vAssert(err != nil, "Tar reported success although the destination refused part of the archive")
+	}
+}
+
+// verifYieldWriter is a slow destination: every Write is a scheduling point.
+type verifYieldWriter struct{ buf bytes.Buffer }
+
+func (w *verifYieldWriter) Write(p []byte) (int, error) {
+	vYield()
+	return w.buf.Write(p)
+}
+
+// VerifC13_TwoArchives: two archives are written at the same time (two mounts or servers in one
+// process, `tar -i` streaming into a pipe while another tar runs) into slow destinations: each
+// one is byte for byte what it is when written alone - encoders share no scratch state.
+func VerifC13_TwoArchives() {
+	vPreempt(1)
+	mk := func(k int) []*File {
+		return []*File{
+			{Name: ".", Path: ".", Mode: os.ModeDir | 0755, Uid: 10 * (k + 1), ModTime: time.Unix(0, int64(5+k))},
+			{Name: "f", Path: "f", Mode: 0644, Uid: 7 + k, Size: 1, ModTime: time.Unix(0, int64(9+k)), Data: io.NopCloser(bytes.NewReader([]byte{byte(0x41 + k)}))},
+		}
+	}
+	var ref [2]bytes.Buffer
+	for k := 0; k < 2; k++ {
+		vAssert(Tar(context.Background(), &ref[k], &verifTreeReader{files: mk(k)}) == nil, "Tar failed")
+	}
+	var out [2]verifYieldWriter
+	var wg sync.WaitGroup
+	for k := 0; k < 2; k++ {
+		k := k
+		wg.Add(1)
+		go func() {
+			defer wg.Done()
+			Tar(context.Background(), &out[k], &verifTreeReader{files: mk(k)})
+		}()
+	}
+	wg.Wait()
+	vCover("both-written")
+	for k := 0; k < 2; k++ {
+		vAssert(bytes.Equal(out[k].buf.Bytes(), ref[k].Bytes()), "an archive written while another one was being written differs from the same archive written alone")
 	}
 }
